@@ -387,8 +387,7 @@ MANIFEST = {
              "iteration order, a.Equal(b) iff both denote the same canonical value), Equal_equivalence, rep_ok_decided, Hash_Equal (fnv1a modelled bit-exactly), hashmap_refines "
              "(every Set/Clear sequence behaves as an association map keyed by the denoted value, Keys lists each key once), EqualC_transparent/HashC_transparent (causal wrappers at "
              "any depth), MakeSet_establishes_rep_ok, gob_roundtrip (decode(encode c) = c incl. vector clocks, under the hypothesis that gob reads back what it wrote), "
-             "print_is_rendered_tokens + parse_print_tokens (token-level printer/parser round trip for all values); print_parse_partial is conditional on the lexer."),
-    "level_note": ("Partial: the byte-level print/parse statement is proved only up to the lexer (covered by evaluating the full Gallina parser and an independent Python parser on "
-                   "every case). immutable.Map is abstracted (Get = first Equal key); encoding/gob is a hypothesis; the tie between model and Go is differential testing "
+             "print_parse (byte level: parse (print v) = Some v for every value; via print_is_rendered_tokens, parse_print_tokens, lexer_inverts_render)."),
+    "level_note": ("Nothing partial; strconv.Quote outside printable ASCII is outside the model and the statement. immutable.Map is abstracted (Get = first Equal key); encoding/gob is a hypothesis; the tie between model and Go is differential testing "
                    "(220 quick / 4000 thorough cases, 13 seeded mutations all caught, see notes/C05.md)."),
 }
